@@ -515,7 +515,15 @@ func (g *gen) literal(sc *scope, t ty, d int) string {
 		}
 		return "fmt.Errorf(\"e%d: %v\", " + g.expr(sc, tInt, d-1) + ", " + g.expr(sc, tString, d-1) + ")"
 	case kAny:
-		switch g.intn(5, "any") {
+		switch g.intn(9, "any") {
+		case 5:
+			return "interface{}(" + g.expr(sc, tMapSI, d-1) + ")"
+		case 6:
+			return "interface{}(" + g.expr(sc, tArr3, d-1) + ")"
+		case 7:
+			return "interface{}(" + g.expr(sc, tError, d-1) + ")"
+		case 8:
+			return "interface{}(" + g.expr(sc, tSliceStr, d-1) + ")"
 		case 0:
 			return "interface{}(" + g.expr(sc, tInt, d-1) + ")"
 		case 1:
@@ -1021,13 +1029,18 @@ func (g *gen) stmt(sc *scope, d int) string {
 		perm := []struct {
 			tn string
 			t  ty
-		}{{"int", tInt}, {"string", tString}, {"bool", tBool}, {"[]int", tSliceInt}, {"float64", tFloat}}
+		}{{"int", tInt}, {"string", tString}, {"bool", tBool}, {"[]int", tSliceInt}, {"float64", tFloat},
+			{tMapSI.String(), tMapSI}, {tArr3.String(), tArr3}, {"error", tError}, {"[]string", tSliceStr}, {tFunc.String(), tFunc}}
 		start := g.intn(len(perm), "tsstart")
-		n := 1 + g.intn(4, "tsn")
+		n := 1 + g.intn(5, "tsn")
 		for i := 0; i < n; i++ {
 			p := perm[(start+i)%len(perm)]
 			inner := &scope{parent: sc, vars: []variable{{name: v, t: p.t, ro: true}}}
-			fmt.Fprintf(&b, "case %s:\n%s\n", p.tn, indent("fmt.Println(\""+g.tag()+"\", "+v+")\n"+g.block(inner, 1, d-1), 1))
+			shown := v
+			if p.t == tFunc {
+				shown = v + " != nil" // a func value prints as an address
+			}
+			fmt.Fprintf(&b, "case %s:\n%s\n", p.tn, indent("fmt.Println(\""+g.tag()+"\", "+shown+")\n"+g.block(inner, 1, d-1), 1))
 		}
 		if g.chance(30, "tsnil") {
 			fmt.Fprintf(&b, "case nil:\n\tfmt.Println(%q)\n", g.tag()+" nil")
